@@ -71,6 +71,10 @@ def run(chk):
     p = core.load_program("all")
     chk.configs = ["all-features"]
     chk.explanation = __doc__
+    # shared clause (C07 R8): the key pair a U2F registration hands out is the one later authentications sign with only
+    # if the shipped stores' save writes the record it is given (a re-registration under the same handle replaces it)
+    from .framework import borrow
+    borrow(chk, "C07", ["R8|"], "C17: authentication signs with the key of the latest registration of that handle")
     S = summary.Summaries(p)
     from . import normal
     N = normal.Normalizer(p, S)
